@@ -134,6 +134,8 @@ pub enum Adapter {
     EntriesOnlyPaged(i32),
     /// chain [PagedResults, EntriesOnly]
     PagedEntriesOnly(i32),
+    /// an adapter of the harness's own (the trait is public): hands `n` next() calls up the chain, then fails
+    FailAfter(u32),
 }
 
 #[derive(Clone, Debug, PartialEq, Serialize, Deserialize)]
@@ -148,6 +150,8 @@ pub enum Step {
     },
     /// streaming_search / streaming_search_with into stream slot `slot`
     Open { token: String, slot: usize, search: SearchSpec, adapter: Adapter, mods: Mods },
+    /// start a streaming search and drop the call after `polls` polls (no stream comes of it)
+    OpenDropped { token: String, search: SearchSpec, polls: u32 },
     Next { slot: usize, cancel_after_polls: Option<u32> },
     Finish { slot: usize },
     State { slot: usize },
@@ -243,6 +247,9 @@ pub struct Hostile {
     /// announced length of the outer element is larger than the item (the decoder may wait for more)
     #[serde(default)]
     pub outer_inflated: bool,
+    /// everything the server sends after the item is held back this long (0 = follows at once)
+    #[serde(default)]
+    pub gap_after_ms: u64,
 }
 
 #[derive(Clone, Debug, PartialEq, Serialize, Deserialize)]
